@@ -65,10 +65,24 @@ fn scripts(rng: &mut Rng, total: usize) -> String {
 
 pub fn gen_server(rng: &mut Rng, id: usize) -> Vec<String> {
     let mut lines = vec![format!("case hs-server s{id}")];
-    let cb = match rng.below(10) {
+    // headers a callback adds: sometimes several values under one name, sometimes a name the
+    // library's own response already carries
+    let multi = |rng: &mut Rng| -> String {
+        let names = ["Sec-WebSocket-Protocol", "X-Tag", "x-tag", "Set-Cookie", "Connection", "Vary"];
+        let n = rng.range(2, 5);
+        let mut v = Vec::new();
+        for i in 0..n {
+            let name = *rng.pick(&names[..]);
+            v.push(format!("{}={}", hx(name), hx(&format!("v{i}"))));
+        }
+        v.join(",")
+    };
+    let cb = match rng.below(14) {
         0 => format!("accept:{}={}", hx("Sec-WebSocket-Protocol"), hx("chat")),
         1 => format!("reject:{}:{}:{}={}", *rng.pick(&[400u16, 403, 404, 500]), hx("nope"), hx("x-why"), hx("because")),
         2 => format!("reject:{}:none:-", *rng.pick(&[200u16, 204, 301, 404])),
+        3 => format!("accept:{}", multi(rng)),
+        4 => format!("reject:{}:{}:{}", *rng.pick(&[300u16, 302, 307, 401, 403, 503]), if rng.chance(1, 2) { hx("body") } else { "none".into() }, multi(rng)),
         _ => "none".into(),
     };
     lines.push(format!("hcfg callback={cb}"));
